@@ -712,6 +712,32 @@ def check_cbor_tag_flags(chk, tier):
                 chk.fail(rid, site, fn['file'], leaks[0].line or fn['l'], '%s dispatches on the pending tag flag %s in %d places but can return normally (line %s) without clearing it: '
                          'an item of a major type that does not look at the tag leaves it for the next item' % (fn['n'], t, cnt, leaks[0].line), None, fn['q'])
     chk.require(n >= 8, '%s: only %d pending-tag tests found in basic_cbor_parser' % (rid, n))
+    # a parser that is reused forgets the pending tags of the input it was given before: reset() clears the flag member
+    flag_members = set()
+    allf = [f for f in U.functions(facts, cls='basic_cbor_parser') if f.get('body') is not None]
+    for fn in allf:
+        for y in A.walk_no_lambda(fn['body']):
+            if y.get('k') == 'CXXOperatorCallExpr' and y.get('oop') == '[]' and y.get('args'):
+                o = A.strip(y['args'][0], casts=True)
+                if o is not None and o.get('k') == 'MemberExpr' and o.get('n', '').endswith('tags_'): flag_members.add(o['n'])
+    from .. import inline as I
+    resets = U.one_per_inst([f for f in allf if f['n'] == 'reset'])
+    chk.require(resets and flag_members, '%s: basic_cbor_parser::reset or the pending-tag member not found' % rid)
+    for fn in resets:
+        for m in sorted(flag_members):
+            cleared = False
+            for b in I.closure_bodies(facts, fn, depth=2):
+                for y in A.walk_no_lambda(b):
+                    # other_tags_.reset() / other_tags_ = {} / other_tags_.reset(i) for every flag is not attempted: the whole set
+                    if A.is_call(y) and y.get('k') == 'CXXMemberCallExpr' and A.callee_name(y) == 'reset' and not (y.get('args') or []) and (A.strip(y.get('obj'), casts=True) or {}).get('n') == m: cleared = True
+                    am = U.assigned_member(y) if y.get('k') in ('BinaryOperator', 'CXXOperatorCallExpr') else None
+                    if am and am[0] == m: cleared = True
+            site = U.site(fn, 'reset clears %s' % m)
+            chk.analysed(fn)
+            if cleared: chk.ok(rid, site, {'function': fn['q'], 'member': m})
+            else:
+                chk.fail(rid, site, fn['file'], fn['l'], 'basic_cbor_parser::reset leaves the pending tag flags `%s` as they are: after an input that ended (or failed) between a tag and its item, '
+                         'the first item of the next input is decoded as if it carried that tag' % m, None, fn['q'])
 
 def run(chk, tier, only_rule=None):
     chk.explanation = EXPLANATION
